@@ -301,7 +301,14 @@ impl MarkdownEventsReader {
                     DocumentInline::Link(Link {
                         inlines: vec![],
                         target: Target {
-                            url: dest_url.to_string(),
+                            url: match link_type {
+                                // '[[key\|text]]' in a table cell: the backslash escapes
+                                // the pipe for the table, it is not part of the key
+                                pulldown_cmark::LinkType::WikiLink { has_pothole: true } => {
+                                    dest_url.trim_end_matches('\\').to_string()
+                                }
+                                _ => dest_url.to_string(),
+                            },
                             title: title.to_string(),
                         },
                         title: title.to_string(),
